@@ -21,6 +21,7 @@ fn main() {
         Some("run") => driver::run(&args[2..]),
         Some("worker") => driver::worker(&args[2..]),
         Some("probe") => probe(&args[2..]),
+        Some("probe-any") => probe_any(&args[2..]),
         _ => {
             eprintln!("usage: waxmon run <Cxx> <quick|thorough> [--replay <file>]");
             2
@@ -76,6 +77,30 @@ fn probe(args: &[String]) -> i32 {
                     None => ("-".into(), "-".into()),
                 };
                 println!("  {:?}: impl={} may={} must={} caps={:?}", p, g.is_match(p.as_str()), may, must, caps);
+            }
+        },
+    }
+    0
+}
+
+/// Debugging aid: `waxmon probe-any <expr>.. -- [path..]`.
+fn probe_any(args: &[String]) -> i32 {
+    use wax::Program;
+    let split = args.iter().position(|a| a == "--").unwrap_or(args.len());
+    let exprs: Vec<&str> = args[..split].iter().map(|s| s.as_str()).collect();
+    match wax::any(exprs.iter().copied()) {
+        Err(e) => println!("build: Err({})", e),
+        Ok(a) => {
+            println!("regex: {}", a.verif_program_pattern());
+            println!(
+                "depth={} text={:?} root={} exhaustive={}",
+                monitors::group_a::depth_str(&a.depth()),
+                monitors::group_a::text_str(&a.text()),
+                monitors::group_a::when_str(a.has_root()),
+                monitors::group_a::when_str(a.is_exhaustive()),
+            );
+            for p in args.iter().skip(split + 1) {
+                println!("  {:?}: {}", p, a.is_match(p.as_str()));
             }
         },
     }
